@@ -91,6 +91,8 @@ pub struct GenOpts {
     pub errors: bool,
     pub callcc: bool,
     pub winds: bool,
+    /// continuation re-entry templates without dynamic-wind (for checks that leave `winds` off)
+    pub reentry: bool,
     pub handlers: bool,
     pub output: bool,
     pub heap: bool, // boxes / vectors
@@ -104,7 +106,7 @@ pub struct GenOpts {
 
 impl Default for GenOpts {
     fn default() -> Self {
-        GenOpts { errors: true, callcc: true, winds: false, handlers: true, output: true, heap: true, gc_points: false, max_depth: 5, top_forms: 8, avoid: vec![] }
+        GenOpts { errors: true, callcc: true, winds: false, reentry: false, handlers: true, output: true, heap: true, gc_points: false, max_depth: 5, top_forms: 8, avoid: vec![] }
     }
 }
 
@@ -250,7 +252,7 @@ impl<'c> Gen<'c> {
             if o.errors { 2 } else { 0 },                       // 15 dead raising code
             3,                                                  // 16 higher-order: apply / fold over literal lists
             2,                                                  // 17 string / char consumers
-            if o.winds && !pure_ { 9 } else { 0 },              // 18 dynamic-wind / control templates
+            if o.winds && !pure_ { 9 } else if o.reentry && !pure_ { 5 } else { 0 }, // 18 dynamic-wind / control templates
             2,                                                  // 19 do loop
             2,                                                  // 20 hash consumers
             if pure_ { 0 } else { 3 },                          // 21 assignment clusters
@@ -379,6 +381,7 @@ impl<'c> Gen<'c> {
             16 => {
                 let n = 1 + self.c.below(3);
                 let p = self.proc_value(n, d - 1, pure_);
+                self.feat("higher-order-call");
                 let args = self.operands(n, d - 1, pure_, |g, d, p| g.int(d, p));
                 match self.c.below(3) {
                     0 => app("apply", vec![p, app("list", args)]),
@@ -397,7 +400,7 @@ impl<'c> Gen<'c> {
                 }
             }
             18 => {
-                if self.c.chance(3, 4) {
+                if !self.opts.winds || self.c.chance(3, 4) {
                     self.control(d)
                 } else {
                     self.dynamic_wind(d)
@@ -1061,7 +1064,8 @@ impl<'c> Gen<'c> {
         let after = lambda(&[], Body::single(app("display", vec![string(&format!("{}>", tag))])));
         let n = self.c.range(1, 3);
         let step = self.c.range(1, 9);
-        match self.c.below(9) {
+        let pick = if self.opts.winds { self.c.below(10) } else { [0usize, 1, 6, 8, 9][self.c.below(5)] };
+        match pick {
             0 => {
                 // generator: the continuation of a let binding is re-entered n times
                 self.feat("continuation-reentry");
@@ -1246,6 +1250,60 @@ impl<'c> Gen<'c> {
                             Expr::WithHandler(Box::new(lambda(&["e"], Body { defs: vec![], exprs: vec![app("display", vec![string("inner")]), v] })), Box::new(begin(vec![r, int(0)]))),
                         ],
                     )),
+                )
+            }
+            8 => {
+                // re-entry into a recursion whose frames run different instances of ONE lambda, each
+                // capturing its own box and reachable only through its frame (the instance is a temporary
+                // that was called at once); garbage is allocated while the continuation is the only
+                // holder of those frames, then it is re-entered and the boxes are read on the way out
+                self.feat("call/cc");
+                self.feat("continuation-reentry");
+                self.feat("reentry-into-closure-instance-recursion");
+                let depth = self.c.range(2, 6);
+                let churn = self.c.range(20, 120);
+                let visitor = lambda(
+                    &["i"],
+                    Body::single(iff(
+                        app("=", vec![var("i"), int(0)]),
+                        Expr::CallCC(Box::new(lambda(&["k"], Body { defs: vec![], exprs: vec![app("set-box!", vec![var("kb"), var("k")]), int(0)] }))),
+                        // the box is read AFTER the inner call has returned (on every re-entry again)
+                        Expr::Let(
+                            vec![("below".into(), call(app("mk", vec![app("box", vec![app("*", vec![var("i"), int(step)])])]), vec![app("-", vec![var("i"), int(1)])]))],
+                            Box::new(Body::single(app("+", vec![var("below"), app("unbox", vec![var("b")])]))),
+                        ),
+                    )),
+                );
+                let mut after: Vec<Expr> = vec![];
+                if self.opts.gc_points {
+                    after.push(app("#%gc-collect", vec![]));
+                }
+                after.push(Expr::NamedLet(
+                    "churn".into(),
+                    vec![("j".into(), int(0)), ("keep".into(), Expr::Quote(Datum::List(vec![])))],
+                    Box::new(Body::single(iff(
+                        app("<", vec![var("j"), int(churn)]),
+                        app("churn", vec![app("+", vec![var("j"), int(1)]), app("cons", vec![app("box", vec![app("-", vec![int(0), var("j")])]), var("keep")])]),
+                        app("length", vec![var("keep")]),
+                    ))),
+                ));
+                after.push(iff(
+                    app("<", vec![app("unbox", vec![var("cnt")]), int(n)]),
+                    begin(vec![
+                        app("set-box!", vec![var("cnt"), app("+", vec![app("unbox", vec![var("cnt")]), int(1)])]),
+                        call(app("unbox", vec![var("kb")]), vec![app("*", vec![int(10), app("unbox", vec![var("cnt")])])]),
+                    ]),
+                    var("r"),
+                ));
+                Expr::Let(
+                    vec![("kb".into(), app("box", vec![boolean(false)])), ("cnt".into(), app("box", vec![int(0)]))],
+                    Box::new(Body::single(Expr::Letrec(
+                        vec![("mk".into(), lambda(&["b"], Body::single(visitor)))],
+                        Box::new(Body::single(Expr::Let(
+                            vec![("r".into(), call(app("mk", vec![app("box", vec![int(1)])]), vec![int(depth)]))],
+                            Box::new(Body { defs: vec![], exprs: after }),
+                        ))),
+                    ))),
                 )
             }
             _ => {
